@@ -100,9 +100,20 @@ def overwrite_inputs(ws, rng, p=0.5, tmax=40):
                 ws.c[loc + len(w), sim] = TMAX
 
 
-def model_request(ws, sim, dataset=0):
+def model_stems(c, strip):
+    """branch -> stem map of the Lean `SimOps` model (`stemList` = `stemsOf net true`, i.e. `MapIn.src`) for circuit `c`;
+    empty without fork stripping"""
+    if not strip: return {}
+    order = ','.join(str(n.index) for n in c.topological_order())
+    ans = common.run_driver([f'net {circ.dump_net(c)}', f'forkcert {order}'])[1]
+    body = ans.split('stems=', 1)[1] if 'stems=' in ans else ''
+    return {int(b): int(t) for b, t in (x.split(':') for x in body.split(',') if x)}
+
+
+def model_request(ws, sim, dataset=0, stems=None):
     """`wavesim` request line for lane `sim` of a WaveSim object whose inputs are assigned (before or after c_prop:
-    input slots are never overwritten)"""
+    input slots are never overwritten). `stems`: branch -> stem map used to resolve the value sources of the rows (needed
+    with memory reuse, where a location does not identify its owner); default: read the owner off `c_locs`."""
     opsA = np.array(ws.ops)
     locs = np.array(ws.c_locs)
     written = set(int(r[1]) for r in opsA) | set(ws.ppi_offset + int(s) for s in ws.pippi_s_locs)
@@ -110,6 +121,7 @@ def model_request(ws, sim, dataset=0):
     for w in written: by_loc.setdefault(int(locs[w]), w)
     def src(i):
         i = int(i)
+        if stems is not None: return stems.get(i, i)
         if i in written: return i
         return by_loc.get(int(locs[i]), i)   # stripped fan-out branch: the signal that owns its memory (the stem)
     ops = ' '.join(','.join(str(x) for x in [int(row[0]), int(row[1])] + [src(v) for v in row[2:6]] + [int(v) for v in row[2:6]])
@@ -125,6 +137,23 @@ def model_request(ws, sim, dataset=0):
         ents, term = read_wave(c, loc, cap, sim)
         stim.append(f'{idx}={fmt_wave(ents, term)}')
     return f"wavesim {ops} ; {dels} ; {caps} ; {' '.join(stim)}"
+
+
+def ppo_memory(c, ws, sim, stems):
+    """what the REAL memory holds at every output slot, read the way the Lean model reads a region (`Wave.rdWave`: entries
+    up to the first terminator inside `c_caps` of the SLOT index, addressed through `c_locs` of the SLOT index), together with
+    the signal the slot captures (`MapIn.ppoSrcs`: the data line of the interface node, resolved through the stems).
+    -> list of (slot index, captured signal, token)"""
+    cc = np.array(ws.c)
+    out = []
+    for s_loc in ws.poppo_s_locs:
+        n = c.s_nodes[int(s_loc)]
+        if len(n.ins) == 0 or n.ins[0] is None: continue
+        l = int(n.ins[0].index)
+        j = ws.ppo_offset + int(s_loc)
+        ents, term = read_wave(cc, int(ws.c_locs[j]), int(ws.c_caps[j]), sim)
+        out.append((j, stems.get(l, l), fmt_wave(ents, term) if term != '?' else '?'))
+    return out
 
 
 def owner_caps(ws):
